@@ -41,14 +41,18 @@ type pkgState struct {
 	tagOn    int
 	tagOff   int
 	extras   map[int]bool
+	hasDecl  bool // imports a declaration-only binding package d<i> (LLGoPackage = "decl") that forwards a constant of c<i>
+	declBias int
+	declFwd  int
 }
 
 type module struct {
-	dir   string
-	mainK int
-	pkgs  []*pkgState
-	tagOn bool
-	opt   string
+	reflectMain bool // package main builds types with reflect (type table of the entry module)
+	dir         string
+	mainK       int
+	pkgs        []*pkgState
+	tagOn       bool
+	opt         string
 }
 
 func (m *module) write(rel, content string) {
@@ -60,7 +64,13 @@ func (m *module) write(rel, content string) {
 }
 
 func kFile(pkg string, k int) string { return fmt.Sprintf("package %s\n\nconst K = %d\n", pkg, k) }
-func cFile(v int) string             { return fmt.Sprintf("int cval(void) { return %d; }\n", v) }
+func cFile(pkg string, v int) string {
+	return fmt.Sprintf("int cval_%s(void) { return %d; }\n", pkg, v)
+}
+func declFile(i, bias int) string {
+	return fmt.Sprintf("package d%[1]d\n\nimport (\n\t_ \"unsafe\"\n\n\t\"c13mod/c%[1]d\"\n)\n\nconst LLGoPackage = \"decl\"\n\nconst Fwd = c%[1]d.F\n\nconst Bias = %[2]d\n\n//go:linkname Abs C.abs\nfunc Abs(x int32) int32\n", i, bias)
+}
+
 func extraFile(pkg string, n int) string {
 	return fmt.Sprintf("package %s\n\nfunc init() { Extra += %d }\n", pkg, n)
 }
@@ -68,7 +78,12 @@ func extraFile(pkg string, n int) string {
 func (m *module) writeAll() {
 	m.write("go.mod", "module c13mod\n\ngo 1.24\n")
 	m.write("mk.go", kFile("main", m.mainK))
-	m.write("main.go", "package main\n\nimport \"c13mod/p1\"\n\nfunc main() {\n\tprintln(\"main\", K, p1.Sum)\n\tp1.Report()\n}\n")
+	if m.reflectMain {
+		m.write("main.go", "package main\n\nimport (\n\t\"reflect\"\n\n\t\"c13mod/p1\"\n)\n\ntype rec struct {\n\tA int\n\tB string\n}\n\nfunc main() {\n\tprintln(\"main\", K, p1.Sum)\n\tp1.Report()\n"+
+			"\tts := []reflect.Type{reflect.TypeOf(0), reflect.TypeOf(\"\"), reflect.TypeOf(rec{}), reflect.TypeOf(1.5), reflect.TypeOf([]byte(nil))}\n\tn := 0\n\tfor _, t := range ts {\n\t\tn += len(reflect.SliceOf(t).String()) + len(reflect.PointerTo(t).String()) + len(reflect.MapOf(reflect.TypeOf(0), t).String()) + len(reflect.ArrayOf(3, t).String())\n\t}\n\tprintln(\"reflect\", n)\n}\n")
+	} else {
+		m.write("main.go", "package main\n\nimport \"c13mod/p1\"\n\nfunc main() {\n\tprintln(\"main\", K, p1.Sum)\n\tp1.Report()\n}\n")
+	}
 	for i, p := range m.pkgs {
 		var api strings.Builder
 		fmt.Fprintf(&api, "package %s\n\n", p.name)
@@ -86,6 +101,11 @@ func (m *module) writeAll() {
 		if p.hasC {
 			imps = append(imps, "\t_ \"unsafe\"\n")
 		}
+		if p.hasDecl {
+			imps = append(imps, fmt.Sprintf("\t\"c13mod/d%d\"\n", i+1))
+			m.write(fmt.Sprintf("d%d/d.go", i+1), declFile(i+1, p.declBias))
+			m.write(fmt.Sprintf("c%d/c.go", i+1), fmt.Sprintf("package c%d\n\nconst F = %d\n", i+1, p.declFwd))
+		}
 		if len(imps) > 0 {
 			api.WriteString("import (\n" + strings.Join(imps, "") + ")\n\n")
 		}
@@ -102,9 +122,12 @@ func (m *module) writeAll() {
 			m.write(p.name+"/data.txt", p.embed)
 		}
 		if p.hasC {
-			api.WriteString("const LLGoFiles = \"wrap/w.c\"\n\n//go:linkname cval C.cval\nfunc cval() int32\n\n")
+			api.WriteString("const LLGoFiles = \"wrap/w.c\"\n\n//go:linkname cval C.cval_" + p.name + "\nfunc cval() int32\n\n")
 			args = append(args, "cval()")
-			m.write(p.name+"/wrap/w.c", cFile(p.cval))
+			m.write(p.name+"/wrap/w.c", cFile(p.name, p.cval))
+		}
+		if p.hasDecl {
+			args = append(args, fmt.Sprintf("d%d.Bias", i+1), fmt.Sprintf("d%d.Fwd", i+1), fmt.Sprintf("d%d.Abs(-5)", i+1))
 		}
 		if p.hasTag {
 			args = append(args, "Tag()")
@@ -143,6 +166,9 @@ func (m *module) expected() string {
 		if p.hasC {
 			f = append(f, fmt.Sprint(p.cval))
 		}
+		if p.hasDecl {
+			f = append(f, fmt.Sprint(p.declBias), fmt.Sprint(p.declFwd), "5")
+		}
 		if p.hasTag {
 			if m.tagOn {
 				f = append(f, fmt.Sprint(p.tagOn))
@@ -151,6 +177,9 @@ func (m *module) expected() string {
 			}
 		}
 		b.WriteString(strings.Join(f, " ") + "\n")
+	}
+	if m.reflectMain {
+		b.WriteString("reflect 194\n")
 	}
 	return b.String()
 }
@@ -210,10 +239,23 @@ func TestC13Histories(t *testing.T) {
 			p.embed = word(t, rapid.IntRange(1, 8).Draw(t, "embedlen"), "ch")
 			p.cval = rapid.IntRange(1, 99).Draw(t, "cval")
 			p.tagOn, p.tagOff = 1000+rapid.IntRange(0, 99).Draw(t, "tagon"), 2000+rapid.IntRange(0, 99).Draw(t, "tagoff")
+			p.hasDecl = rapid.Bool().Draw(t, "hasDecl")
+			p.declBias, p.declFwd = rapid.IntRange(1, 99).Draw(t, "declBias"), rapid.IntRange(1, 99).Draw(t, "declFwd")
 			anyEmbed = anyEmbed || p.hasEmbed
 			m.pkgs = append(m.pkgs, p)
 		}
+		m.reflectMain = rapid.IntRange(0, 2).Draw(t, "reflectMain") == 0
+		anyEmbed = anyEmbed || m.reflectMain // reflect, like embed, keeps the module at O0 under LLVM 14
 		m.writeAll()
+		if m.reflectMain {
+			c.Class("history_reflect_in_main")
+		}
+		for _, p := range m.pkgs {
+			if p.hasDecl {
+				c.Class("history_decl_only_binding_package")
+				break
+			}
+		}
 		bin := filepath.Join(m.dir, "prog.bin")
 		build := func() (string, bool, string) {
 			cfg := progkit.Config{Opt: m.opt, XDG: xdg}
@@ -263,8 +305,11 @@ func TestC13Histories(t *testing.T) {
 		var last *undo
 		var trace []string
 		nsteps := rapid.IntRange(4, 10).Draw(t, "nsteps")
+		if m.reflectMain {
+			nsteps = rapid.IntRange(1, 3).Draw(t, "nstepsReflect") // every build links reflect: keep these histories short
+		}
 		for s := 0; s < nsteps; s++ {
-			kind := rapid.SampledFrom([]string{"edit_dep_const", "edit_dep_const", "edit_leaf_const", "edit_main_const", "edit_embed", "edit_embed_same_length", "edit_c_file", "toggle_tag", "add_file", "remove_file", "revert", "touch", "noop", "clear_cache", "toggle_opt", "stealth_same_size_same_mtime"}).Draw(t, "step")
+			kind := rapid.SampledFrom([]string{"edit_dep_const", "edit_dep_const", "edit_leaf_const", "edit_main_const", "edit_embed", "edit_embed_same_length", "edit_c_file", "toggle_tag", "add_file", "remove_file", "revert", "touch", "noop", "clear_cache", "toggle_opt", "stealth_same_size_same_mtime", "edit_decl_const", "edit_decl_const", "edit_behind_decl", "edit_behind_decl"}).Draw(t, "step")
 			pi := rapid.IntRange(0, len(m.pkgs)-1).Draw(t, "pkg")
 			p := m.pkgs[pi]
 			nontrivial := true
@@ -314,9 +359,29 @@ func TestC13Histories(t *testing.T) {
 				}
 				rel, old, oldV := p.name+"/wrap/w.c", readBack(p.name+"/wrap/w.c"), p.cval
 				p.cval = rapid.IntRange(1, 99).Draw(t, "cval")
-				m.write(rel, cFile(p.cval))
+				m.write(rel, cFile(p.name, p.cval))
 				pp := p
 				last = &undo{rel, old, func() { pp.cval = oldV }}
+				desc += " " + p.name
+			case "edit_decl_const", "edit_behind_decl":
+				if !p.hasDecl {
+					desc, nontrivial = "noop (package has no declaration-only binding package)", false
+					break
+				}
+				pp := p
+				if kind == "edit_decl_const" {
+					rel, oldV := fmt.Sprintf("d%d/d.go", pi+1), p.declBias
+					old := readBack(rel)
+					p.declBias = rapid.IntRange(1, 99).Draw(t, "declBias")
+					m.write(rel, declFile(pi+1, p.declBias))
+					last = &undo{rel, old, func() { pp.declBias = oldV }}
+				} else {
+					rel, oldV := fmt.Sprintf("c%d/c.go", pi+1), p.declFwd
+					old := readBack(rel)
+					p.declFwd = rapid.IntRange(1, 99).Draw(t, "declFwd")
+					m.write(rel, fmt.Sprintf("package c%d\n\nconst F = %d\n", pi+1, p.declFwd))
+					last = &undo{rel, old, func() { pp.declFwd = oldV }}
+				}
 				desc += " " + p.name
 			case "toggle_tag":
 				m.tagOn = !m.tagOn
@@ -422,6 +487,7 @@ func TestC13Histories(t *testing.T) {
 		c.SampleNow(map[string]any{"packages": len(m.pkgs) + 1, "history": trace})
 		// reproducibility: two builds from an empty module cache give identical archive members
 		var sets [2]map[string]string
+		var exe [2][32]byte
 		for k := 0; k < 2; k++ {
 			clearModuleCache(xdg)
 			if _, ok, why := build(); !ok {
@@ -436,9 +502,21 @@ func TestC13Histories(t *testing.T) {
 				t.Fatalf("VERIF-INFRA %v", err)
 			}
 			sets[k] = ms
+			data, err := os.ReadFile(bin)
+			if err != nil {
+				t.Fatalf("VERIF-INFRA %v", err)
+			}
+			exe[k] = sha256.Sum256(data)
 		}
 		c.Class("reproducibility_pairs")
-		if len(sets[0]) != len(m.pkgs) {
+		if exe[0] != exe[1] {
+			key := "C13:not-reproducible:executable"
+			if !c.IsKnown(key) {
+				t.Fatalf("[%s] two builds of identical sources from an empty module cache produce different executables (entry module / link inputs differ)\nreflect in main: %v\nhistory: %s", key, m.reflectMain, strings.Join(trace, " ; "))
+			}
+			c.KnownHit(key)
+		}
+		if len(sets[0]) < len(m.pkgs) {
 			t.Fatalf("VERIF-INFRA expected %d cached package archives, found %d", len(m.pkgs), len(sets[0]))
 		}
 		for pkg, h := range sets[0] {
